@@ -1,8 +1,7 @@
 package c05
 
-// Reproduction of an observation made OUTSIDE the domain of the C05 units (the units never put the
-// same key material into one keyset twice).  Not part of checks.json; runs only with
-// VERIF_C05_PROBE=1.
+// Dedicated reproduction of a listed known finding (the generated units never put the same key
+// material into one keyset twice, so they do not meet it).
 //
 // Two ENABLED AES-CTR-HMAC streaming keys that share the key bytes and all parameters except the tag
 // size (10 / 16) and the segment size: the first segment of a stream written with the 16-byte-tag key
@@ -14,19 +13,22 @@ package c05
 import (
 	"bytes"
 	"io"
-	"os"
 	"testing"
 
 	"github.com/tink-crypto/tink-go/v2/keyset"
 	"github.com/tink-crypto/tink-go/v2/streamingaead"
 	"github.com/tink-crypto/tink-go/v2/streamingaead/aesctrhmac"
+	"github.com/tink-crypto/tink-go/v2/verifharness/internal/evid"
+	"github.com/tink-crypto/tink-go/v2/verifharness/internal/kf"
 	"github.com/tink-crypto/tink-go/v2/verifharness/internal/tk"
 )
 
-func TestProbeStreamingSharedMaterial(t *testing.T) {
-	if os.Getenv("VERIF_C05_PROBE") == "" {
-		t.Skip("reproduction of an out-of-domain observation; set VERIF_C05_PROBE=1 to run")
-	}
+func TestKnownStreamingSharedMaterial(t *testing.T) {
+	const sig = "streaming:shared-key-material:first-read-commit"
+	evid.Case("known/streaming-shared-material", true, 1, func() any {
+		return "two ENABLED AES-CTR-HMAC streaming keys with equal key bytes, tag sizes 10 and 16; 15-byte stream written by the primary"
+	})
+	evid.Case("known/streaming-shared-material", true, 2, nil)
 	keyBytes := bytes.Repeat([]byte{0xff}, 32)
 	mk := func(tag int, seg int32) *aesctrhmac.Key {
 		p, err := aesctrhmac.NewParameters(aesctrhmac.ParametersOpts{KeySizeInBytes: 32, DerivedKeySizeInBytes: 32, HkdfHashType: aesctrhmac.SHA512, HmacHashType: aesctrhmac.SHA1, HmacTagSizeInBytes: tag, SegmentSizeInBytes: seg})
@@ -71,6 +73,10 @@ func TestProbeStreamingSharedMaterial(t *testing.T) {
 	r, _ = w.NewDecryptingReader(bytes.NewReader(buf.Bytes()), nil)
 	pt, err := io.ReadAll(r)
 	if err != nil || !bytes.Equal(pt, msg) {
+		if kf.Listed("C05", sig) {
+			kf.Report("C05", sig)
+			return
+		}
 		t.Fatalf("keyset primitive: stream %x written by its own primary key decrypts to %x, err=%v (the primary key alone decrypts it)", buf.Bytes(), pt, err)
 	}
 }
